@@ -380,6 +380,16 @@ impl Sim {
                 }
                 _ => "badhandle".into(),
             },
+            ["cancelopen", req] => {
+                // the application gives up waiting (e.g. a timeout around `new_stream_channel`)
+                if let Some(slot) = self.opens.remove(&num(req)) {
+                    self.exec.cancel(slot);
+                }
+                "unit".into()
+            }
+            ["sinkblock"] => { self.ws.set_sink_room(Some(0)); "unit".into() }
+            ["sinkunblock"] => { self.ws.set_sink_room(None); "unit".into() }
+            ["sinkgrant", k] => { self.ws.set_sink_room(Some(num(k) as usize)); "unit".into() }
             ["dropmux"] => {
                 if self.pending_futures() > 0 {
                     return "badhandle".into();
